@@ -14,6 +14,7 @@ import JT.Model.Path
 import JT.Gen.SaveGuard
 import JT.Model.Term
 import JT.Gen.TermDefaults
+import JT.Model.AttStream
 /-!
 Line-protocol driver: one operation per input line, one result line per operation.
 `<idx> <op> <args…>` ↦ `<idx> <result>`.
@@ -441,6 +442,32 @@ def expected (seq : Nat) (frame : Bytes) : String :=
   | _ => "none"
 end TermSim
 
+/-! C10: the attachment connection loop on a byte stream -/
+namespace AttStreamSim
+open JT JT.AttStream
+
+def stageName : Stage → String
+  | .init => "init" | .start => "start" | .streamData => "stream-data" | .supplementary => "supplementary"
+  | .streamDataComplete => "stream-data-complete" | .complete => "complete"
+
+def run (astype : Nat) (stream : Bytes) : String :=
+  match AttStream.run (dialectOf astype) Sess.init [stream] [] with
+  | .panic => "panic"
+  | .err => "err"
+  | .ok (evs, failed, _) =>
+    let names := evs.map (fun e => stageName e.stage ++ (if e.hasCurrent then "+" else ""))
+    s!"stages=[{",".intercalate names}] end={if failed then "fail" else "ok"}"
+
+def contained (kind : String) (astype : Nat) (stream : Bytes) : String :=
+  if kind == "attach" then
+    match AttStream.run (dialectOf astype) Sess.init [stream] [] with
+    | .panic => "not-contained:model-panic"
+    | _ => "contained"
+  else
+    let (_, _, _, _, pn) := Parse.parse 0 Parse.PState.empty stream
+    if pn then "not-contained:model-panic" else "contained"
+end AttStreamSim
+
 def runOp (op : String) (args : List String) : String :=
   match op, args with
   | "dec", [f] =>
@@ -477,6 +504,14 @@ def runOp (op : String) (args : List String) : String :=
     match ofHex body with
     | none => "bad-op"
     | some b => (totModel ty b).getD "skip"
+  | "astream", [astype, _cut, stream] =>
+    match astype.toNat?, ofHex stream with
+    | some a, some b => AttStreamSim.run a b
+    | _, _ => "bad-op"
+  | "hostile", [kind, astype, _close, _cut, stream] =>
+    match astype.toNat?, ofHex stream with
+    | some a, some b => AttStreamSim.contained kind a b
+    | _, _ => "bad-op"
   | "tgen", [v, phone, skip, cmds] =>
     match v.toNat?, TermSim.digits phone, skip.toNat? with
     | some v, some ds, some k =>
